@@ -1124,6 +1124,15 @@ CORE_SPELLINGS = [
 ]
 
 
+# value positions fed by branches of unusual shape, and map keys that are == but differently spelled
+DIRECTED_EVAL = [
+    "let obs = [];\nlet t = true;\npush(obs, [10, if t { { 7; } }, 30]);\npush(obs, [1, if t { 5 }, if t { { 6; } } else { 8 }]);\nfn f(c) { [1, if c { { 42; } }] }\npush(obs, f(true));\npush(obs, f(false));\n0\n",
+    "let obs = [];\nlet t = true;\nfn g(a, b, c) { [a, b, c] }\npush(obs, g(1, if t { { 2; } }, 3));\npush(obs, 1 + if t { { 5; } 4 });\npush(obs, [if t { let q = 1; }, if !t { 1 }, match 1 { 1 => { { 9; } }, _ => 0 }]);\n0\n",
+    "let obs = [];\nlet z = 0.0;\nlet nz = -z;\nlet m = map {z: \"zero\", 1: \"one\"};\npush(obs, nz == z);\npush(obs, m[nz]);\npush(obs, m[0]);\npush(obs, m[-0.0]);\npush(obs, m[1.0]);\npush(obs, contains(m, nz));\nm[nz] = \"neg\";\npush(obs, len(m));\n0\n",
+    "let obs = [];\nlet m = map {0: \"int\"};\npush(obs, m[0.0 * -1]);\npush(obs, get(m, -0.0));\nlet a = [0.0, 1];\nlet k = map {a: 1};\npush(obs, k[[-0.0, 1.0]]);\n0\n",
+]
+
+
 def alias_programs(rng, n):
     """arrays and maps are shared by reference, `+` builds a NEW array whatever its operands are: mutate one side, observe both"""
     empties = ["[]", "e()", "rest([1])", "([] + [])", "z"]
@@ -1147,6 +1156,8 @@ def sources(ctx):
         out.append(s); tags.append("alias")
     for s in DEEP_EQ:
         out.append(s); tags.append("deep-eq")
+    for s in DIRECTED_EVAL:
+        out.append(s); tags.append("directed")
     for s in gen_lang.SPECIALS:
         out.append(s); tags.append("special")
     for s in gen_lang.FAULTY:
